@@ -1,6 +1,6 @@
 (* Pinned statements of C04 (generated once by tools/mkpins.py from coq/props/C04.v, then committed). *)
 From DV Require Import Model.Base Model.Parser Model.Header Model.Readers Spec.NameSpec Spec.RecordSpec Proofs.Hoare Proofs.HeaderBits
-  Proofs.SummaryBits Proofs.ReadersLabels Proofs.QuestionSpec props.C04.
+  Proofs.SummaryBits Proofs.ReadersLabels Proofs.QuestionSpec Proofs.EdnsFacts props.C04.
 Local Open Scope N_scope.
 Check (C04_flags_word : forall w x i, w < 65536 ->
   N.testbit (w_flags w x) i =
@@ -27,3 +27,5 @@ Print Assumptions C04_question_getters.
 Check (C04_question_decoding_unique : forall p ls t c ls' t' c',
   question_of p ls t c -> question_of p ls' t' c' -> ls = ls' /\ t = t' /\ c = c').
 Print Assumptions C04_question_decoding_unique.
+Check (C04_edns_summary : forall p v, bytes_ok p -> parse p = Ok v -> esum_v p v).
+Print Assumptions C04_edns_summary.
